@@ -13,7 +13,7 @@ CONSTANTS
   MaxN,        \* objects in a tree
   MaxNamed,    \* named objects
   MaxUnnamed,  \* unnamed objects besides the root
-  MaxRefs,     \* reference texts in a model
+  MaxRefs,     \* reference texts plus plain values in a model
   Names,       \* <<>>: every object o is called "n<o>" and references name an
                \* ancestor or the object itself (back references);
                \* otherwise the names objects and references may use
@@ -26,18 +26,19 @@ VARIABLE g
 ----------------------------------------------------------------------------
 \* the carrier meta-models
 
-A(n, c, m, t)   == [name |-> n, cont |-> c, many |-> m, typ |-> t, alts |-> << >>]
-AO(n, m, alts)  == [name |-> n, cont |-> TRUE, many |-> m, typ |-> "OBJECT", alts |-> alts]
+A(n, c, m, t)      == [name |-> n, cont |-> c, many |-> m, typ |-> t, alts |-> << >>, prim |-> FALSE]
+AO(n, m, alts, pr) == [name |-> n, cont |-> TRUE, many |-> m, typ |-> "OBJECT", alts |-> alts, prim |-> pr]
 
 \* C05: recursive containment; a single abstract, a list OBJECT-typed (assigned
-\* at several places with different rules), a single concrete and a list
+\* at several places with different rules, one of them INT, so that plain values
+\* and objects sit side by side), a single concrete and a list
 \* concrete containment attribute; single and list references interleaved with
 \* them.  Class names are prefixes / suffixes of one another on purpose.
 MM5 == [root |-> "Pkg",
         classes |-> <<
           [name |-> "Pkg", named |-> TRUE, attrs |-> <<
              A("one", TRUE, FALSE, "Elem"), A("up", FALSE, FALSE, "Elem"),
-             AO("elems", TRUE, <<"Pkg", "PkgSubPkg", "PkgLeaf">>), A("ups", FALSE, TRUE, "Elem") >>],
+             AO("elems", TRUE, <<"Pkg", "PkgSubPkg", "PkgLeaf">>, TRUE), A("ups", FALSE, TRUE, "Elem") >>],
           [name |-> "PkgSubPkg", named |-> TRUE, attrs |-> <<
              A("first", TRUE, FALSE, "PkgLeaf"), A("rest", TRUE, TRUE, "Pkg") >>],
           [name |-> "PkgLeaf", named |-> TRUE, attrs |-> <<
@@ -122,7 +123,10 @@ RightPath == {N} \cup Ancestors(g, N)
 
 NamedCount   == Cardinality({o \in Objs(g) : g.name[o] # ""})
 UnnamedCount == Cardinality({o \in Objs(g) : g.name[o] = "" /\ g.par[o] # 0})
+PrimCount    == Len(SelectSeq(Flat([o \in Objs(g) |-> Flat([i \in 1..Len(g.kids[o]) |-> g.kids[o][i].e])]),
+                             LAMBDA k : k = 0))
 RefCount     == Len(Flat([o \in Objs(g) |-> Flat([i \in 1..Len(g.refs[o]) |-> g.refs[o][i].names])]))
+                  + PrimCount
 
 AddNode(p, i, c, nm) ==
   LET at == ContAttrs(g.cls[p])[i]
@@ -136,6 +140,14 @@ AddNode(p, i, c, nm) ==
      /\ (Sorted /\ el # << >> =>
            Key(g.cls[el[Len(el)]], g.name[el[Len(el)]]) <= Key(c, nm))
      /\ g' = [Fresh(c, nm, p) EXCEPT !.kids[p][i].e = Append(@, N + 1)]
+
+\* a plain value appended to a list that can hold one (same place rule as AddNode)
+AddPrim(p, i) ==
+  LET at == ContAttrs(g.cls[p])[i] IN
+  /\ at.prim /\ at.many
+  /\ RefCount < MaxRefs
+  /\ \A j \in (i + 1)..Len(g.kids[p]) : g.kids[p][j].e = << >>
+  /\ g' = [g EXCEPT !.kids[p][i].e = Append(@, 0)]
 
 RefNamesFor(o) ==
   IF Names = << >> THEN {g.name[a] : a \in {o} \cup Ancestors(g, o)} ELSE Range(Names)
@@ -157,6 +169,7 @@ Next ==
   \/ \E p \in RightPath : \E i \in 1..Len(g.kids[p]) :
        \E c \in Allowed(ContAttrs(g.cls[p])[i]) : \E nm \in NamesFor(c, N + 1) :
          AddNode(p, i, c, nm)
+  \/ \E p \in RightPath : \E i \in 1..Len(g.kids[p]) : AddPrim(p, i)
   \/ \E o \in Objs(g) : \E i \in 1..Len(g.refs[o]) : \E nm \in RefNamesFor(o) : AddRef(o, i, nm)
 
 Spec == Init /\ [][Next]_g
